@@ -18,7 +18,7 @@ Tie (model <-> code):
     SELECT on the same connection.
 Witnesses of the three places where the code as it is violates the property are replayed on every run.
 """
-import ast, datetime, itertools, json, random, re, sys, traceback
+import ast, datetime, gc, itertools, json, random, re, sys, traceback
 from pony.orm import (Database, Required, Optional, Set, PrimaryKey, db_session, select, count, sum as psum, min as pmin, max as pmax,
                       avg, desc, raw_sql, commit, rollback, flush, delete, exists, get as pget)
 from pony.orm import core, asttranslation, decompiling, ormtypes
@@ -159,6 +159,7 @@ class Installed(object):
         core.SessionCache.__init__ = init
     def reset_singletons(self):
         for o, n in self.singletons: setattr(o, n, None)
+        pony_utils.lambda_args_cache.clear()      # keyed by get_codeobject_id / ast node
     def uninstall(self):
         core.SessionCache.__init__ = self.orig_init
         for (mod, name), v in self.saved.items(): setattr(mod, name, v)
@@ -273,6 +274,37 @@ def q_getsql_then_fetch(P, x):
     q.get_sql()
     return srt((p.id, p.lz) for p in q)
 def q_noprefetch_lz(P, x): return srt((p.id, p.lz) for p in select(p for p in P if p.a > x))
+def q_count_d(P, x, d): return _qa(P, x).count(distinct=d)
+def q_sum_d(P, x, d): return _qa(P, x).sum(distinct=d)
+def q_avg_d(P, x, d):
+    r = _qa(P, x).avg(distinct=d)
+    return None if r is None else round(r, 6)
+def q_gc(P, x, sep, d):
+    r = select(p.s for p in P if p.a > x).group_concat(sep, distinct=d)
+    return None if r is None else sorted(r.split(sep or ','))
+def q_count_ent_d(P, x, d): return select(p for p in P if p.a > x).count(distinct=d)
+# a slice / index bound that is a parameter INSIDE a nested generator (pinned into the translator: must be re-checked at the root)
+def q_nested_stop(P, G, n): return srt(select(g.id for g in G if exists(p for p in g.ps if p.s[:n] == g.name[:n]))[:])
+def q_nested_slice(P, i, j): return srt(select(p.id for p in P if exists(q for q in P if q.a == p.a and q.s[i:j] == 'b'))[:])
+def q_nested_start(P, G, i): return srt(select(g.id for g in G if exists(p for p in P if p.g == g and p.s[i:] == 'c'))[:])
+def q_nested_getattr(P, G, n): return srt(select(g.id for g in G if exists(p for p in g.ps if getattr(p, n) == 1))[:])
+# run-time compiled, short-lived lambdas and generators: the code object dies with the step and its address is re-used
+CONDS = ['p.a > 1', 'p.a < 2', 'p.a == 3', 'p.a != 3', 'p.a >= 2', 'p.a <= 0', 'p.b == 1', 'p.s == "ab"']
+def q_eval_lambda(P, c):
+    func = eval('lambda p: ' + CONDS[c], {})
+    try: return ids(P.select(func))
+    finally:
+        del func; gc.collect()
+def q_eval_gen(P, c):
+    gen = eval('(p.id for p in P if %s)' % CONDS[c], {'P': P})
+    try: return srt(select(gen)[:])
+    finally:
+        del gen; gc.collect()
+def q_eval_filter(P, c):
+    func = eval('lambda p: ' + CONDS[c], {})
+    try: return ids(select(p for p in P).filter(func))
+    finally:
+        del func; gc.collect()
 def q_rawq(P, x): return srt(select(p.id for p in P if raw_sql("p.a > $x"))[:])
 def q_rawexpr(P, x): return srt(select((p.id, raw_sql("p.a + $x")) for p in P)[:])
 def r_select(db, x): return srt(db.select("select id from P where a > $x"))
@@ -312,6 +344,7 @@ class Env(object):
 QUERIES = {f.__name__: f for f in [q_cmp, q_cmpb, q_ne, q_date, q_str, q_in, q_slice, q_slice1, q_slice2, q_getattr, q_obj, q_fcall, q_lambda, q_lambda_s,
                                   q_strq, q_strq2, q_strlambda, q_filter, q_filter_s, q_where_a, q_where_b, q_order_s, q_order_d, q_order_l,
                                   q_count, q_sum, q_min, q_max, q_avg, q_countd, q_exists, q_first, q_get, q_page, q_limit, q_distinct, q_nodistinct,
+                                  q_count_d, q_sum_d, q_avg_d, q_gc, q_count_ent_d, q_nested_slice, q_eval_lambda, q_eval_gen, q_eval_filter,
                                   q_forupdate, q_prefetch_lz, q_getsql_then_fetch, q_noprefetch_lz, q_rawq, q_rawexpr, r_bysql,
                                   e_get_a, e_get_b, e_select_a, e_exists, e_select_ab]}
 DBQ = {f.__name__: f for f in [r_select, r_select_pct, r_select_pct2, r_get, r_exists, r_noparam]}
@@ -338,6 +371,7 @@ def exec_step(env, st):
         elif name == 'q_subq': r = q_subq(P, G, *a)
         elif name == 'q_from': r = q_from(P, *a)
         elif name == 'q_prefetch_g': r = q_prefetch_g(P, G, *a)
+        elif name in ('q_nested_stop', 'q_nested_start', 'q_nested_getattr'): r = globals()[name](P, G, *a)
         elif name == 'pk': r = P[a[0]].a
         elif name == 'lazy':
             o = P.get(id=a[0]); r = None if o is None else o.lz
@@ -468,6 +502,10 @@ def gen_value(rng, kinds):
     if k == 'tuple': return ['@tuple'] + [rng.choice(INTS) for _ in range(rng.choice([0, 1, 2, 3]))]
     if k == 'list': return ['@list'] + [rng.choice(INTS) for _ in range(rng.choice([0, 1, 2, 3]))]
     if k == 'strtuple': return ['@tuple'] + [rng.choice(['a', 'b']) for _ in range(rng.choice([1, 2]))]
+    if k == 'tri': return rng.choice([None, False, True])
+    if k == 'sep': return rng.choice([None, ',', '|'])
+    if k == 'cond': return rng.randrange(8)
+    if k == 'bound': return rng.choice([0, 1, 2, 3, -1, -2])
     if k == 'obj': return ['@obj', 'G', rng.choice([1, 2, 3, 9])]
     if k == 'pobj': return ['@obj', 'P', rng.choice([1, 2])]
     raise ValueError(k)
@@ -489,6 +527,9 @@ QSPEC = [   # (step, argument kinds per position, weight)
     ('r_bysql', [['int']], 1), ('r_noparam', [], 1),
     ('e_get_a', [['int', 'none', 'str']], 2), ('e_get_b', [['int', 'none']], 2), ('e_select_a', [['int']], 1), ('e_exists', [['int']], 1),
     ('e_select_ab', [['int'], ['int', 'none']], 2),
+    ('q_count_d', [['int'], ['tri']], 3), ('q_sum_d', [['int'], ['tri']], 1), ('q_avg_d', [['int'], ['tri']], 1), ('q_gc', [['int'], ['sep'], ['tri']], 1),
+    ('q_count_ent_d', [['int'], ['tri']], 1), ('q_nested_slice', [['bound', 'none'], ['bound', 'none']], 2),
+    ('q_eval_lambda', [['cond']], 3), ('q_eval_gen', [['cond']], 3), ('q_eval_filter', [['cond']], 2),
 ]
 
 def gen_query(rng):
@@ -655,7 +696,7 @@ def random_histories(ctx):
     flush_protocol(ctx)
 
 
-POOL = {'int': [1, 3, -1], 'none': [None], 'str': ['ab', 'b%'], 'date': [['@date', 2020, 1, 1], ['@date', 2021, 1, 1]], 'bool': [True], 'float': [1.5],
+POOL = {'tri': [None, False, True], 'sep': [None, ',', '|'], 'cond': [0, 1, 2, 3, 4, 5], 'bound': [1, 2, 3, -1, -2], 'int': [1, 3, -1], 'none': [None], 'str': ['ab', 'b%'], 'date': [['@date', 2020, 1, 1], ['@date', 2021, 1, 1]], 'bool': [True], 'float': [1.5],
         'tuple': [['@tuple'], ['@tuple', 1], ['@tuple', 1, 3]], 'list': [['@list', 1], ['@list', 0, 3]], 'strtuple': [['@tuple', 'a']],
         'obj': [['@obj', 'G', 1], ['@obj', 'G', 2]], 'pobj': [['@obj', 'P', 1]]}
 SPECIALS = [
@@ -667,6 +708,9 @@ SPECIALS = [
     [['q_slice', 0, 2], ['q_slice', 1, 2], ['q_slice', 1, None], ['q_slice', None, -1], ['q_slice', -2, None], ['q_slice', 0, 1]],
     [['q_slice1', 0], ['q_slice1', 2], ['q_slice1', None], ['q_slice1', -1]], [['q_slice2', 0], ['q_slice2', 2], ['q_slice2', None], ['q_slice2', -1]],
     [['q_subq', 0], ['q_subq', 1], ['q_from', 0, 5], ['q_from', 1, 3]],
+    [['q_nested_stop', 1], ['q_nested_stop', 2], ['q_nested_stop', 3], ['q_nested_stop', -1], ['q_nested_stop', None]],
+    [['q_nested_start', 1], ['q_nested_start', 2], ['q_nested_start', 3], ['q_nested_start', -1]],
+    [['q_nested_getattr', 'a'], ['q_nested_getattr', 'b']],
     [['lazy', 2], ['load_lz', 2], ['load', 2], ['pk', 2], ['lazy', 3]],
     [['coll', 1], ['coll', 2], ['tags', 2], ['tps', 2], ['contains', 1, 1], ['contains', 1, 4]],
 ]
@@ -724,6 +768,11 @@ MODEL_KEYS = {}
 def check_key_shapes(ctx, inst):
     """the keys found in the real dicts have the shape of the generated key"""
     if not MODEL_KEYS: return
+    def dict_names(fields):
+        names = set(f.split('.')[-1] for f in fields)
+        if names & {'aggr_func_name', 'aggr_func_distinct', 'sep'}:
+            names -= {'aggr_func_name', 'aggr_func_distinct', 'sep'}; names.add('aggr_func')
+        return names
     tr = set(f.split('.')[-1] for f in MODEL_KEYS['translatorKey'])
     for d_ in inst.dicts:
         kind = d_.name.split(':')[0]
@@ -735,11 +784,15 @@ def check_key_shapes(ctx, inst):
             elif kind == '_delete_sql_cache_': exp, got = len(MODEL_KEYS['deleteSqlKey']), len(k)
             elif kind == '_translator_cache': exp, got = sorted(tr), sorted(k.keys())
             elif kind == '_constructed_sql_cache':
-                names = set(f.split('.')[-1] for f in (MODEL_KEYS['bulkDeleteSqlKey'] if 'sql_command' in k else MODEL_KEYS['constructedSqlKey']))
+                names = dict_names(MODEL_KEYS['bulkDeleteSqlKey'] if 'sql_command' in k else MODEL_KEYS['constructedSqlKey'])
                 names.discard('query_key'); names |= tr
+                if 'aggr_func' in k:
+                    ctx.count('aggr_func:%r' % (k['aggr_func'][1],))
+                    if not (isinstance(k['aggr_func'], tuple) and len(k['aggr_func']) == 3):
+                        ctx.divergence('sql_key component aggr_func is not the triple of the model', {'key': repr(k['aggr_func'])}, model=3, impl=repr(k['aggr_func']))
                 exp, got = sorted(names), sorted(k.keys())
             elif kind == 'query_results':
-                names = set(f.split('.')[-1] for f in MODEL_KEYS['constructedSqlKey']); names.discard('query_key'); names |= tr; names.add('arguments_key')
+                names = dict_names(MODEL_KEYS['constructedSqlKey']); names.discard('query_key'); names |= tr; names.add('arguments_key')
                 exp, got = sorted(names), sorted(k.keys())
             if exp is not None:
                 ctx.count('keyshape:' + kind)
@@ -755,6 +808,7 @@ def check_functionality(ctx, inst, hist):
             ctx.count('key-collision:' + kind)
             predicted = (kind == 'extractors_cache' and 'Field.scope_classification' not in MODEL_KEYS.get('extractorsKey', [])) or \
                         (kind == '_insert_cache' and MODEL_KEYS.get('dbInsertKeyFlat', True))
+            if kind in ('ast_cache', 'extractors_cache', '_translator_cache', '_constructed_sql_cache') and not MODEL_KEYS.get('codeobjectsPinned', True): predicted = True
             if kind == '_translator_cache' and c1[2:] != c2[2:]: predicted = True   # same key, other pinned values: the model's re-check case
             if not predicted and MODEL_KEYS:
                 ctx.divergence('two different values were computed for ONE key of a cache the model proves transparent',
@@ -817,9 +871,11 @@ def translator_tie(ctx):
     if not ctx.driver.ok: return
     rng = ctx.rng
     batch = []
-    for kind, fn, norm in (('start', q_slice1, 'start'), ('stop', q_slice2, 'stop'), ('getattr', q_getattr, 'id')):
+    for kind, fn, norm in (('start', q_slice1, 'start'), ('stop', q_slice2, 'stop'), ('getattr', q_getattr, 'id'),
+                           ('nested-stop', q_nested_stop, 'stop'), ('nested-start', q_nested_start, 'start')):
         for rep in range(ctx.scale(3, 20)):
-            vals = [rng.choice([None, 0, 1, 2, -1]) if kind != 'getattr' else rng.choice(['a', 'b', 's']) for _ in range(rng.choice([3, 6, 10]))]
+            vals = [rng.choice([None, 0, 1, 2, -1] if not kind.startswith('nested') else [1, 2, 3, -1, None]) if kind != 'getattr' else rng.choice(['a', 'b', 's'])
+                    for _ in range(rng.choice([3, 6, 10]))]
             MODE['cold'] = False
             db, P, G, T = build()
             inst = Installed(db)
@@ -829,7 +885,9 @@ def translator_tie(ctx):
                 for v in vals:
                     n0 = len(tc.log)
                     with db_session:
-                        try: fn(P, v)
+                        try:
+                            if kind.startswith('nested'): fn(P, G, v)
+                            else: fn(P, v)
                         except Exception: pass
                     evs = tc.log[n0:]
                     gets = [e for e in evs if e[0] == 'get']
